@@ -28,6 +28,10 @@ type JApiCore struct {
 	// similarPaths to check the forbidding of "similar" paths.
 	similarPaths map[string]string
 
+	// declaredTags a "set" of the tags declared with the TAG directive (the
+	// catalog has the automatic path tags as well).
+	declaredTags map[string]struct{}
+
 	// macro contains list of all project macros.
 	macro map[string]*directive.Directive
 
@@ -119,6 +123,7 @@ func NewJApiCore(file *fs.File, oo ...Option) *JApiCore {
 		similarPaths:           make(map[string]string, 20),
 		rawPathVariables:       make([]rawPathVariable, 0, 40),
 		macro:                  make(map[string]*directive.Directive, 20),
+		declaredTags:           make(map[string]struct{}, 20),
 		scannersStack:          &scanner.Stack{},
 		rules:                  map[string]jschema.Rule{},
 	}
